@@ -180,6 +180,10 @@ def run(ctx):
     ctx.rule("R06.3", "trigger_time is the wall-clock instant; the startup entry is consumed once; the shutdown run is issued from stop()", floor=5)
     trigger_time_rule(ctx, program, "R06.3")
     startup_shutdown_rule(ctx, program, "R06.3")
+    ctx.rule("R06.6", "date/time/offset parsing: for every combination of the documented date forms, time forms and offsets on a grid of current times (leap day, year end, each weekday relation) "
+             "parse_date_time returns the instant the documentation denotes", floor=80)
+    parse_grid(ctx, program, "R06.6")
+
     ctx.rule("R06.5", "after an instant was dispatched the next instant is computed from a clock reading taken after that dispatch (or from the instant itself), never from an earlier reading", floor=1)
     next_now_freshness(ctx, program, "R06.5")
 
@@ -370,3 +374,89 @@ def startup_shutdown_rule(ctx, program, rid):
             want = [Const("shutdown")] if flag else []
             ctx.check(bool(exits(out)) and runs == want, rid, uid, f"shutdown entry {'present' if flag else 'absent'}",
                       msg=f"{uid} with run_on_shutdown={flag}: runs issued with trigger_time {runs!r}, specified {want!r}", key=f"shutdown run {flag}", node=program.func(uid), rel=rel)
+
+
+DOW = {"sun": 0, "mon": 1, "tue": 2, "wed": 3, "thu": 4, "fri": 5, "sat": 6}
+P_DATES = ["", "2024/3/1", "2025/01/05", "3/1", "12/31", "sun", "wed", "sat", "today", "tomorrow"]
+P_TIMES = ["", "10:00", "9:30:15.5", "00:00", "23:59:59", "noon", "midnight", "sunrise", "sunset"]
+P_OFFS = ["", "+ 2h", "- 10 min", "+ 1.5 hours", "-3 days", "+2w", "+ 90s", "- 1 sec"]
+P_NOWS = [dt.datetime(2024, 2, 28, 13, 30, 5), dt.datetime(2023, 12, 31, 23, 59, 59, 500000), dt.datetime(2024, 3, 9, 0, 0, 0)]
+SUNRISE, SUNSET = (6, 31, 7), (19, 2, 3)
+OFF_UNITS = {"s": 1, "sec": 1, "min": 60, "h": 3600, "hours": 3600, "days": 86400, "w": 604800}
+
+
+def _ref_parse(date_tok, time_tok, off_tok, now, day_offset, startup):
+    """The documented meaning (docs/reference.rst, @time_trigger): date part, time part, optional offset."""
+    y, m, d = now.year, now.month, now.day
+    fixed = False
+    if date_tok.count("/") == 2:
+        y, m, d = (int(x) for x in date_tok.split("/"))
+        day_offset, fixed = 0, True
+    elif date_tok.count("/") == 1:
+        m, d = (int(x) for x in date_tok.split("/"))
+        day_offset, fixed = 0, True
+    elif date_tok in DOW:
+        day_offset, fixed = (DOW[date_tok] - now.isoweekday() % 7) % 7, True
+    elif date_tok == "today":
+        day_offset, fixed = 0, True
+    elif date_tok == "tomorrow":
+        day_offset, fixed = 1, True
+    base = dt.datetime(y, m, d) + dt.timedelta(days=day_offset)
+    if time_tok == "now":
+        base, fixed = startup, True
+    elif time_tok in ("sunrise", "sunset"):
+        h, mi, se = SUNRISE if time_tok == "sunrise" else SUNSET
+        base += dt.timedelta(hours=h, minutes=mi, seconds=se)
+    elif time_tok == "noon":
+        base += dt.timedelta(hours=12)
+    elif time_tok and time_tok != "midnight":
+        parts = time_tok.split(":")
+        base += dt.timedelta(hours=int(parts[0]), minutes=int(parts[1]), seconds=float(parts[2]) if len(parts) > 2 else 0)
+    if off_tok:
+        import re as _re
+        mm = _re.fullmatch(r"([-+]?)\s*([\d.]+)\s*(\w*)", off_tok)
+        val = float(mm.group(2)) * (-1 if mm.group(1) == "-" else 1) * OFF_UNITS[mm.group(3) or "s"]
+        base += dt.timedelta(seconds=val)
+    return base, fixed
+
+
+def parse_grid(ctx, program, rid):
+    uid = "trigger.py::TrigTime.parse_date_time"
+    from ..absint import FuncV
+
+    def executor(i, n, a, k, c, o):
+        which = repr(a[0])
+        d = a[1].v if len(a) > 1 and isinstance(a[1], Const) else None
+        if d is None:
+            return [(c, Sym(("sun?",)))]
+        h, mi, se = SUNRISE if "sunrise" in which else SUNSET
+        return [(c, Const(dt.datetime(d.year, d.month, d.day, h, mi, se)))]
+
+    glob = {"parse_time_offset": FuncV(program.func("trigger.py::parse_time_offset"), name="parse_time_offset")}
+    heap = {"TrigTime.dow2int": DictV([(Const(k), Const(v)) for k, v in DOW.items()])}
+    # (the table is filled from the locale at start-up; the English abbreviations are the documented default)
+    for date_tok in P_DATES + ["now"]:
+        for time_tok in (P_TIMES if date_tok != "now" else [""]):
+            bad = None
+            n = 0
+            for off_tok in P_OFFS:
+                for now in P_NOWS:
+                    for day_offset in (0, 1):
+                        spec = " ".join(x for x in (date_tok, time_tok, off_tok) if x)
+                        startup = now - dt.timedelta(hours=3, seconds=7)
+                        pol = FlowPolicy(program, may_raise_all=False, cancel=False, inline={"parse_time_offset"}, globals_=glob,
+                                         summaries={"cls.hass.async_add_executor_job": executor, "sun.get_astral_location": lambda i, n2, a, k, c, o: [(c, ObjV("loc", "Location"))]})
+                        pol.loop_unroll = 4
+                        out = run_flow(program, uid, pol, args={"cls": ClassV("TrigTime"), "date_time_str": Const(spec), "day_offset": Const(day_offset), "now": Const(now),
+                                                               "startup_time": Const(startup)}, heap=heap)
+                        got = [c.env.get("$ret") if k == "return" else d for k, c, d in exits(out)]
+                        if date_tok == "now":
+                            want = _ref_parse("", "now", off_tok, now, day_offset, startup)
+                        else:
+                            want = _ref_parse(date_tok, time_tok, off_tok, now, day_offset, startup)
+                        n += 1
+                        ok = len(got) == 1 and isinstance(got[0], ListV) and len(got[0].items) == 2 and got[0].items[0] == Const(want[0]) and got[0].items[1] == Const(want[1])
+                        if not ok and bad is None:
+                            bad = f"parse_date_time({spec!r}, day_offset={day_offset}, now={now}) returns {got!r}, documented meaning {want}"
+            ctx.check(bad is None, rid, uid, f"date {date_tok!r} time {time_tok!r} ({n} offsets x current times x day offsets)", msg=bad or "", key=f"parse {date_tok!r} {time_tok!r}",
+                      node=program.func(uid), rel="trigger.py")
